@@ -28,6 +28,8 @@ class FakeClock:
       k = 0
     elif self.mode == "coarse":
       k = self.calls // 97          # changes rarely
+    elif self.mode == "whole":
+      return self.base + _dt.timedelta(seconds=self.calls)    # whole seconds: microsecond == 0
     elif self.mode == "back":
       k = -self.calls               # a clock stepping backwards
     else:
